@@ -85,6 +85,7 @@ def strategy_impl(draw, tier):
     nan_holes = draw(st.lists(st.integers(0, 10 ** 6), min_size=1, max_size=2)) if draw(st.integers(0, 3)) == 0 else []
     case = {"nan_holes": nan_holes, "L": L, "lead": lead, "method": method, "bypass": bypass, "shared": shared, "thetas": thetas, "levels": levels,
             "per_column_levels": per_column_levels, "phi": phi, "mask_edges": draw(st.booleans()), "level": level, "theta_dtype": theta_dtype,
+            "flag_style": draw(st.sampled_from(["python", "python", "numpy", "int"])),   # how mask_edges / bypass_checks are spelled
             "phi_dtype": phi_dtype}
     if level == "api":
         case["api"] = {
@@ -282,9 +283,10 @@ def run_api(case, phi, thetas, levels, exp, tol, ambiguous=None):
         da = da.chunk({enames[0]: 1})
         if td is not None and enames[0] in td.dims:
             td = td.chunk({enames[0]: 1})
-    kw = {"method": case["method"], "mask_edges": case["mask_edges"]}
+    flag = {"python": bool, "numpy": np.bool_, "int": int}[case.get("flag_style", "python")]
+    kw = {"method": case["method"], "mask_edges": flag(case["mask_edges"])}
     if case["bypass"]:
-        kw["bypass_checks"] = True
+        kw["bypass_checks"] = flag(True)
     if a["suffix"] is not None:
         kw["suffix"] = a["suffix"]
     if td is not None:
